@@ -15,6 +15,7 @@ import Walleye.Proofs.MakeMoveObs
 import Walleye.Model.SearchChess
 import Walleye.Proofs.Handover
 import Walleye.Proofs.HandoverSearch
+import Walleye.Proofs.HandoverFine
 namespace Walleye
 open Str
 
@@ -514,6 +515,63 @@ theorem realised_of_handover {O : Type} (h : Hasher) (search : Pos → DrawTable
       rw [← h1]; exact hmem
   exact getBestMove_sends_root_successors (chessGame h) ord hord fuel board (s0 board table slice)
     (hs0 board table slice) b hsent
+
+/-! ### the same at the granularity of the code: lock, send, print, drain, close as separate steps -/
+
+open HandoverFine in
+/-- the two critical sections never overlap — derived from the lock discipline, not assumed -/
+theorem critical_sections_exclude_each_other {B I : Type} (acts : List (Handover.Act B I)) (evs : List FEv) :
+    ¬ (sHolds (frun acts evs) = true ∧ mHolds (frun acts evs) = true) :=
+  (ctl_run acts evs).mutex
+
+open HandoverFine in
+/-- **stdout of one go under every schedule of the micro-steps**: the info lines of the acts that got
+    through (a prefix of the search thread's programme), then — once answered — exactly one bestmove;
+    it carries the last board sent before the I/O thread drained the channel, and whatever got
+    through after that is a plain send, never an improvement (so no info line lacks its board) -/
+theorem go_output_under_every_schedule_of_micro_steps {B I : Type} (acts : List (Handover.Act B I)) (evs : List FEv) :
+    ∃ rest, acts = (frun acts evs).done ++ rest ∧
+      ((frun acts evs).mpc ≠ .fin → (frun acts evs).out = Handover.infos (frun acts evs).done) ∧
+      ((frun acts evs).mpc = .fin → ∃ b early late,
+          (frun acts evs).out = Handover.infos (frun acts evs).done ++ [Handover.Line.best b] ∧
+          (frun acts evs).done = early ++ late ∧ (Handover.boards early).getLast? = some b ∧
+          ∀ a ∈ late, ∃ m, a = Handover.Act.fallback m) := by
+  have hd := dat_run acts evs
+  have hl := late_run acts evs
+  obtain ⟨rest, hacts, _⟩ := hd.pre
+  refine ⟨rest, hacts, hd.outOpen, ?_⟩
+  intro hf
+  obtain ⟨b, hout, hbest⟩ := hd.outFin hf
+  obtain ⟨hdr, _⟩ := hd.drainInv (.inr (.inr hf))
+  obtain ⟨early, late, h1, h2, h3⟩ := hl (.inr (.inr hf))
+  exact ⟨b, early, late, hout, h1, by rw [h2, ← hdr, hbest], h3⟩
+
+open HandoverFine in
+/-- nothing is printed after the bestmove, whatever the threads still do -/
+theorem nothing_follows_the_bestmove_micro {B I : Type} (acts : List (Handover.Act B I)) (evs more : List FEv)
+    (h : (frun acts evs).mpc = .fin) : (frun acts (evs ++ more)).out = (frun acts evs).out := by
+  unfold frun at *
+  rw [List.foldl_append]
+  exact out_frozen_foldl more _ (ctl_foldl evs _ (ctl_init acts)) h
+
+open HandoverFine in
+/-- **no deadlock**: in every reachable state in which the I/O thread has noticed the deadline and
+    waits for the lock, at most six further steps answer the go (the lock holder never waits for
+    anything: the channel is unbounded, printing does not block) -/
+theorem no_deadlock_when_answering {B I : Type} (acts : List (Handover.Act B I)) (evs : List FEv)
+    (h : (frun acts evs).mpc = .want) :
+    ∃ sched : List FEv, sched.length ≤ 6 ∧ (frun acts (evs ++ sched)).mpc = .fin := by
+  obtain ⟨sched, hlen, hfin⟩ := answer_is_reachable (frun acts evs) (ctl_run acts evs) h
+  refine ⟨sched, hlen, ?_⟩
+  unfold frun at *
+  rw [List.foldl_append]; exact hfin
+
+/-- the race of defect D13 at the micro level: the improvement passed the clock check (`want`), the
+    I/O thread answers first; the search thread then gets the lock, finds the channel closed and
+    ends without printing -/
+example : (HandoverFine.frun [Handover.Act.fallback 1, Handover.Act.accept 2 7]
+    [.search, .main, .search, .deadline, .main, .main, .main, .main, .search, .search, .search]).out
+    = [Handover.Line.best 1] := by decide
 
 /-- non-vacuity / the race of defect D13 as a schedule: the improvement is accepted by the clock
     check, the I/O thread answers first — the info line is NOT printed afterwards; and when the
